@@ -189,6 +189,8 @@ class VerilogTransformer(Transformer):
                     if s not in c.forks:
                         if f'{s}[0]' in c.forks:  # actually a 1-bit bus?
                             s = f'{s}[0]'
+                        elif s in sig_decls and len(sig_decls[s].names) == 1 and sig_decls[s].names[0] in c.forks:
+                            s = sig_decls[s].names[0]  # a 1-bit bus with an index other than 0, e.g. [9:9]
                         else:
                             log.warn(f'Signal not driven: {s}')
                             Node(c, s)  # generate fork here
